@@ -293,7 +293,8 @@ def _gcc_confirms(case, top, texts, per_cmd, gcc_jobs, res):
             ap = os.path.realpath(os.path.join(top, rel))
             m = used.get(ap, set()) & pp_check.marker_lines(texts, rel)
             if m != gused.get(ap, set()):
-                raise core.HarnessError(f"path model disagrees with gcc run from {dabs}: file={rel} model={sorted(m)} gcc={sorted(gused.get(ap, set()))} args={tail}")
+                res.oracle_disagreement(f"path model disagrees with gcc run from {dabs}: file={rel} model={sorted(m)} gcc={sorted(gused.get(ap, set()))} args={tail}")
+                return False
     res.extra["gcc_confirmed_model"] = res.extra.get("gcc_confirmed_model", 0) + 1
     return True
 
